@@ -87,7 +87,41 @@ def _expand(payload, sub):
         variants.append(gen_variant(rng, n))
     sc['variants'] = variants
     sc['gen_stats'] = stats
+    # row-step contract motif, drawn from its own stream so that the scenarios above are what they were without it: a row
+    # callable that returns a NEW row holding only the kept cells that are set (empty for rows where none is)
+    r2 = random.Random(payload['gseed'] ^ 0x5bd1e995)
+    if not any(sp['step'] == 'bad_link' for sp in sc['steps']) and r2.random() < payload.get('sparse_p', 0.3):
+        try:
+            names = sorted({f['name'] for r in PL.describe(sc, {'calls': {}})['resources'] for f in r['schema']['fields']} - {'_id'})
+        except Exception:  # noqa
+            names = None
+        if names is not None:
+            keep = r2.sample(names, min(len(names), r2.choice([0, 1, 1, 2])))
+            sc['sparse'] = {'step': 'user', 'param': 'row', 'kind': r2.choice(['function', 'lambda', 'method', 'partial', 'callable_obj']),
+                            'mode': 'sparse', 'keep': keep, 'marker': 'mksp', 'api': r2.choice(['results', 'datastream']),
+                            'wrap': r2.choice(['flat', 'flat', 'nested', 'cond'])}
     return sc
+
+
+def model_user(spec, rows_by_res):
+    """The row-step contract, evaluated by hand on materialised rows (the generated user callables are known to the harness):
+    a row callable that returns None passes on the row it was given (with its in-place edits); one that returns a row passes
+    on THAT row, whatever it holds; a rows callable passes on what it yields.  ST.build puts add_field(marker) in front."""
+    mk, mode = spec['marker'], spec.get('mode', 'inplace')
+    out, empty = [], 0
+    for rows in rows_by_res:
+        o = []
+        for row in rows:
+            r = dict(row)
+            r.setdefault(mk, None)
+            if mode in ('inplace', 'newdict'):
+                r[mk] = 1
+            elif mode == 'sparse':
+                r = {k: r[k] for k in spec.get('keep') or () if r.get(k) is not None}
+                empty += not r
+            o.append(r)
+        out.append(o)
+    return out, empty
 
 
 def _retest_chain(payload, sub):
@@ -168,8 +202,25 @@ def _run_variant(payload, sub):
     cur = None
     nseg = len(var['segments'])
     inputs = []
+    contract = []
+    empties = 0
+
+    def check_contract(tree, before, after):
+        # serial evaluation only: segment = exactly one user row/rows step on materialised input
+        nonlocal empties
+        if before is None or after is None or len(tree) != 1 or not isinstance(tree[0], int):
+            return
+        spec = sc['steps'][tree[0]]
+        if spec['step'] != 'user' or spec.get('param') not in ('row', 'rows'):
+            return
+        want, e = model_user(spec, before[1])
+        empties += e
+        want, got = jsonable(want), jsonable(after)
+        if want != got:
+            contract.append({'step': tree[0], 'mode': spec.get('mode'), 'kind': spec.get('kind'), 'param': spec.get('param'), 'diff': first_diff(got, want)})
     for si, tree in enumerate(var['segments']):
         links = PL.source_links(sc['tables'], sc.get('source_kinds')) if cur is None else [Materialised(*cur)]
+        before = copy.deepcopy(cur) if payload.get('contract') else None
         links += _links_of_tree(tree, sc, env)
         last = si == nseg - 1
         if not last:
@@ -179,6 +230,7 @@ def _run_variant(payload, sub):
             # materialised as one (a deepcopy would preserve references shared between resources)
             cur = (json.loads(json.dumps(ds.dp.descriptor)), rows)
             inputs.append(sum(len(r) for r in rows))
+            check_contract(tree, before, rows)
             continue
         api = var['api']
         if api == 'results':
@@ -192,7 +244,8 @@ def _run_variant(payload, sub):
             ds = DF.Flow(*links).datastream()
             rows = [list(r) for r in ds.res_iter]
             desc = ds.dp.descriptor
-    return {'rows': jsonable(rows), 'dp': jsonable(desc), 'calls': env['calls'], 'inputs': inputs,
+            check_contract(tree, before, rows)
+    return {'rows': jsonable(rows), 'dp': jsonable(desc), 'calls': env['calls'], 'inputs': inputs, 'contract': contract, 'empty_rows': empties,
             'cast': _cast(desc, rows) if var['api'] == 'datastream' else None}
 
 
@@ -231,7 +284,8 @@ class C01(Prop):
                    'the descriptor and rows are compared exactly; results() is compared with raw APIs through Table Schema casts of the raw rows']
     REAL_VS_STUB = {'real': ['everything under dataflows/ that the pipeline touches'], 'stub': ['none (the schedule is chosen by how the harness groups and drains the real generators)']}
     PROBES = ['refused-user-callable-retested', 'user-bound-method', 'user-partial', 'user-callable-obj', 'user-lambda', 'user-function', 'crossed-inference-sample', 'nested-depth>=2', 'conditional-wrapped',
-              'barrier-after-sources', 'api-process', 'api-datastream', 'both-raise-discard', 'uninterpretable-link', 'one-shot-source', 'nested-in-place-edit']
+              'barrier-after-sources', 'api-process', 'api-datastream', 'both-raise-discard', 'uninterpretable-link', 'one-shot-source', 'nested-in-place-edit',
+              'row-callable-returns-new-row', 'row-callable-returns-empty-row']
     TIERS = {'quick': dict(runs=500, wall=100, run_wall=300),
              'thorough': dict(runs=15000, wall=1700, run_wall=600)}
     SHRINK_FROZEN = ('fields', 'gen_stats')
@@ -264,7 +318,7 @@ class C01(Prop):
                                   cand['spec'].get('param'), cand['spec'].get('kind'), len(cand['prefix']), c['type'], c['str'][:200]), kind=cand['spec'].get('kind'))
         outs = []
         for vi, var in enumerate(sc['variants']):
-            r = ctx.subrun(_run_variant, {'sc': sc, 'variant': var})
+            r = ctx.subrun(_run_variant, {'sc': sc, 'variant': var, 'contract': vi == 1})
             outs.append(r)
         ref = outs[1]
         lazy = outs[0]
@@ -344,12 +398,42 @@ class C01(Prop):
                 if calls < need:
                     ctx.violation('link-silently-skipped', sp['kind'], 'user %s-callable given as %s (step %d) never ran and no error was raised (variant %s)' % (
                         sp['param'], sp['kind'], i, describe_var(sc['variants'][vi])), variant=vi, kind=sp['kind'])
+        self.judge_contract(ctx, sc, refv)
+        sp = sc.get('sparse')
+        if sp and sum(shape(ref)) > 0:
+            # the same pipeline plus one row callable that returns a new, possibly empty row: step-by-step evaluation is held
+            # against the row-step contract evaluated by hand, and the lazy run (flat / nested / conditional) against it
+            sc2 = dict(sc, steps=sc['steps'] + [{k: v for k, v in sp.items() if k not in ('api', 'wrap')}])
+            tail = {'flat': [n], 'nested': [[n]], 'cond': [{'cond': [n]}]}[sp.get('wrap', 'flat')]
+            lz = ctx.subrun(_run_variant, {'sc': sc2, 'variant': {'segments': [list(range(n)) + tail], 'api': sp.get('api', 'datastream')}})
+            sr = ctx.subrun(_run_variant, {'sc': sc2, 'variant': {'segments': [[]] + [[i] for i in range(n + 1)], 'api': 'datastream'}, 'contract': True})
+            if sr['status'] == 'ok':
+                ctx.probe('row-callable-returns-new-row')
+                if sr['value']['empty_rows']:
+                    ctx.probe('row-callable-returns-empty-row')
+                self.judge_contract(ctx, sc2, sr['value'])
+                if lz['status'] != 'ok':
+                    ctx.violation('one-side-raises', 'variant-raises', 'step-by-step evaluation succeeds but the lazy run raises %s; steps=%s' % (
+                        json.dumps(lz.get('exc'))[:400], json.dumps(sc2['steps'])[:600]), variant='sparse')
+                want = sr['value']['cast'] if sp.get('api') == 'results' else sr['value']['rows']
+                if want is not None and lz['value']['rows'] != want:
+                    ctx.violation('schedule-equivalence:rows', 'differ', 'rows of the lazy run (%s, %s) differ from step-by-step evaluation at %s; steps=%s' % (
+                        sp.get('wrap'), sp.get('api'), first_diff(lz['value']['rows'], want), json.dumps(sc2['steps'])[:600]), variant='sparse', api=sp.get('api'))
+            elif lz['status'] == 'ok':
+                ctx.violation('one-side-raises', 'serial-raises', 'serial (step-by-step) evaluation raises %s but the lazy run returns normally; steps=%s' % (
+                    json.dumps(sr.get('exc'))[:300], json.dumps(sc2['steps'])[:600]), variant='sparse')
         if pending:
             c, k, m, d = pending[0]
             ctx.violation(c, k, m, **d)
         if n >= 2 and sum(shape(ref)) > 0:
             ctx.nt([s['step'] for s in sc['steps']], [json.dumps(v) for v in sc['variants'][2:]])
         ctx.sample = {'sources': [len(t['rows']) for t in sc['tables']], 'steps': sc['steps'], 'variants': sc['variants']}
+
+    def judge_contract(self, ctx, sc, refv):
+        for c in refv.get('contract') or []:
+            ctx.violation('link-without-effect', '%s:%s' % (c['param'], c['mode']), 'the output of user %s-callable (step %d, given as %s, mode %s) on the materialised output of the previous '
+                          'step is not what the callable returned / yielded: %s; steps=%s' % (c['param'], c['step'], c['kind'], c['mode'], c['diff'], json.dumps(sc['steps'])[:600]),
+                          kind=c['kind'], mode=c['mode'])
 
     def normalize(self, sc):
         if 'steps' not in sc:
